@@ -1,15 +1,346 @@
 /-
-C17 — property theorems (transactions are authentic, applied at most once, and charged exactly).
-Helper lemmas live in Proofs*.lean.
+C17 — "Transactions are authentic, applied at most once, and charged exactly": the property theorems.
+
+Model: YouVerif/C17/Model.lean (the code that exists), contracts of its two parameters (EVM, staking action
+handlers): YouVerif/C17/ModelSpec.lean, helper lemmas: Proofs*.lean.
+
+Cryptography is abstract: `C.hash` (Keccak-256) and `C.recover` (secp256k1 public-key recovery + address
+derivation) are uninterpreted; nothing is assumed about them except where a hypothesis says so explicitly.
 -/
-import YouVerif.C17.Model
+import YouVerif.C17.ProofsSpec
+import YouVerif.C17.ProofsSender
 
 namespace YouVerif.C17
+open YouVerif.Common
 
-/-- `preCheck` refuses only for the four up-front reasons. -/
-theorem preCheck_refused_unchanged (s : St) (m : Msg) (e : Err) (h : preCheck s m = .error e) :
-    e = .nonceTooHigh ∨ e = .nonceTooLow ∨ e = .insufficientBalanceForGas ∨ e = .gasLimitReached := by
-  unfold preCheck at h
-  grind
+/-! ## Part 1 — authenticity -/
+
+/-- The signing preimage determines the signed fields and the network id (no hash involved):
+equal preimage bytes ⇒ equal nonce, price, gas limit, recipient (incl. creation), value, payload, network id. -/
+theorem sighash_injective (f₁ f₂ : TxFields) (n₁ n₂ : Nat) (h₁ : f₁.WF) (h₂ : f₂.WF) (hn₁ : n₁ < U64) (hn₂ : n₂ < U64)
+    (h : preimage f₁ n₁ = preimage f₂ n₂) : f₁ = f₂ ∧ n₁ = n₂ :=
+  preimage_injective f₁ f₂ n₁ n₂ h₁ h₂ hn₁ hn₂ h
+
+/-- two different byte strings with the same hash -/
+def HashCollision (C : Crypto) (x y : List UInt8) : Prop := x ≠ y ∧ C.hash x = C.hash y
+
+/-- Equal signing hashes mean equal fields and network id — or a hash collision is exhibited. -/
+theorem sighash_equal_or_collision (C : Crypto) (f₁ f₂ : TxFields) (n₁ n₂ : Nat) (h₁ : f₁.WF) (h₂ : f₂.WF)
+    (hn₁ : n₁ < U64) (hn₂ : n₂ < U64) (h : sigHash C n₁ f₁ = sigHash C n₂ f₂) :
+    (f₁ = f₂ ∧ n₁ = n₂) ∨ HashCollision C (preimage f₁ n₁) (preimage f₂ n₂) := by
+  by_cases hp : preimage f₁ n₁ = preimage f₂ n₂
+  · exact Or.inl (preimage_injective f₁ f₂ n₁ n₂ h₁ h₂ hn₁ hn₂ hp)
+  · exact Or.inr ⟨hp, h⟩
+
+/-- What an accepted sender is bound to: the transaction is replay-protected for exactly this network
+(`V = 2·networkId + 35` or `+ 36`), R and S are in range with S in the lower half (low-s rule), and the address is
+the one recovered from the hash of the preimage of exactly these fields and this network id. -/
+theorem sender_binds (C : Crypto) (n : Nat) (tx : Tx) (a : Addr) (h : sender C n tx = .ok a) :
+    (tx.v = 2 * n + 35 ∨ tx.v = 2 * n + 36) ∧
+    1 ≤ tx.r ∧ tx.r < secp256k1N ∧ 1 ≤ tx.s ∧ tx.s ≤ secp256k1halfN ∧
+    C.recover (C.hash (preimage tx.f n)) tx.r tx.s (tx.v - (2 * n + 35)) = some a := by
+  unfold sender at h
+  cases hc : senderCheck n tx with
+  | error e => simp [hc] at h
+  | ok vb =>
+    simp only [hc] at h
+    obtain ⟨_, hv, h1, h2, h3, h4⟩ := senderCheck_ok hc
+    cases hr : C.recover (sigHash C n tx.f) tx.r tx.s vb with
+    | none => simp [hr] at h
+    | some b =>
+      simp only [hr, Except.ok.injEq] at h
+      subst h
+      refine ⟨by omega, h1, h2, h3, h4, ?_⟩
+      have : tx.v - (2 * n + 35) = vb := by omega
+      rw [this]; exact hr
+
+/-- Authenticity under the explicit unforgeability hypothesis (EUF): if a successful recovery of address `a` from
+hash `h` means that the holder of `a`'s key signed `h`, then an accepted sender's key holder signed exactly these
+fields for exactly this network. -/
+theorem sender_authentic (C : Crypto) (SignedBy : Addr → List UInt8 → Prop)
+    (EUF : ∀ h r s v a, C.recover h r s v = some a → SignedBy a h)
+    (n : Nat) (tx : Tx) (a : Addr) (h : sender C n tx = .ok a) :
+    SignedBy a (C.hash (preimage tx.f n)) :=
+  EUF _ _ _ _ _ (sender_binds C n tx a h).2.2.2.2.2
+
+/-- Changing the network id: the same transaction is never accepted by the signers of two different networks. -/
+theorem network_id_binds (C : Crypto) (n₁ n₂ : Nat) (tx : Tx) (a b : Addr)
+    (h₁ : sender C n₁ tx = .ok a) (h₂ : sender C n₂ tx = .ok b) : n₁ = n₂ := by
+  have v1 := (sender_binds C n₁ tx a h₁).1
+  have v2 := (sender_binds C n₂ tx b h₂).1
+  omega
+
+/-- Unprotected (pre-replay-protection) signatures are never accepted. -/
+theorem unprotected_rejected (C : Crypto) (n : Nat) (tx : Tx) (hv : tx.v = 27 ∨ tx.v = 28) :
+    sender C n tx = .error .notProtected := by
+  unfold sender senderCheck isProtectedV
+  rcases hv with hv | hv <;> simp [hv]
+
+/-- The high-s twin `(r, N − s)` of an accepted signature is rejected whatever `V` it is given
+(in plain ECDSA it would verify under the same key). -/
+theorem high_s_rejected (C : Crypto) (n : Nat) (tx : Tx) (a : Addr) (h : sender C n tx = .ok a) (v' : Nat) (b : Addr) :
+    sender C n { tx with s := secp256k1N - tx.s, v := v' } ≠ .ok b := by
+  intro h2
+  have s1 := (sender_binds C n tx a h).2.2.2
+  have s2 := (sender_binds C n _ b h2).2.2.2
+  simp only at s2
+  have := secpN_odd
+  omega
+
+/-- one signature accepted for two different hashes under the same address -/
+def RecoverCollision (C : Crypto) (h₁ h₂ : List UInt8) (r s v : Nat) (a : Addr) : Prop :=
+  h₁ ≠ h₂ ∧ C.recover h₁ r s v = some a ∧ C.recover h₂ r s v = some a
+
+/-- Changing any signed field while keeping the signature: if both the original and the changed transaction are
+accepted as coming from the same sender, then either nothing was changed, or a hash collision is exhibited, or
+one signature (R, S, V) recovers the same address from two different hashes (impossible for ECDSA recovery, where
+the public key is an injective function of the hash for fixed R, S, V — up to an address collision). -/
+theorem mutation_changes_sender_or_rejected (C : Crypto) (n : Nat) (tx₁ tx₂ : Tx) (a : Addr)
+    (hw₁ : tx₁.f.WF) (hw₂ : tx₂.f.WF) (hn : n < U64)
+    (hv : tx₁.v = tx₂.v) (hr : tx₁.r = tx₂.r) (hs : tx₁.s = tx₂.s)
+    (h₁ : sender C n tx₁ = .ok a) (h₂ : sender C n tx₂ = .ok a) :
+    tx₁.f = tx₂.f ∨ HashCollision C (preimage tx₁.f n) (preimage tx₂.f n) ∨
+    RecoverCollision C (C.hash (preimage tx₁.f n)) (C.hash (preimage tx₂.f n)) tx₁.r tx₁.s (tx₁.v - (2 * n + 35)) a := by
+  have r1 := (sender_binds C n tx₁ a h₁).2.2.2.2.2
+  have r2 := (sender_binds C n tx₂ a h₂).2.2.2.2.2
+  rw [← hv, ← hr, ← hs] at r2
+  by_cases hp : preimage tx₁.f n = preimage tx₂.f n
+  · exact Or.inl (preimage_injective _ _ n n hw₁ hw₂ hn hn hp).1
+  · by_cases hh : C.hash (preimage tx₁.f n) = C.hash (preimage tx₂.f n)
+    · exact Or.inr (Or.inl ⟨hp, hh⟩)
+    · exact Or.inr (Or.inr ⟨hh, r1, r2⟩)
+
+/-! ## Part 2 — refused up front ⇒ nothing changes -/
+
+/-- A transaction refused for a bad signature / wrong network, a wrong nonce (low or high), inability to pay for its
+gas, or an exhausted block gas pool changes nothing: not the accounts, not the refund counter, not the pool, not
+`usedGas`, not `gasRewards`. For every state, transaction, EVM and handler (no hypothesis on them). -/
+theorem refused_unchanged (C : Crypto) (n : Nat) (E : Env) (s : St) (acc : Acc) (tx : Tx) (e : Err)
+    (h : (applyTransaction C n E s acc tx).out = .error e) (hu : e.upFront = true) :
+    (applyTransaction C n E s acc tx).st = s ∧ (applyTransaction C n E s acc tx).acc = acc := by
+  unfold applyTransaction at h ⊢
+  cases hs : sender C n tx with
+  | error e' => simp
+  | ok a =>
+    simp only [hs] at h ⊢
+    obtain ⟨herr, hst, hacc⟩ := applyMsg_err h
+    unfold applyMessageEntry at herr hst
+    have := entry_refused_unchanged (env_conv_err_late E _) herr hu
+    exact ⟨by rw [hst]; exact this.1, hacc⟩
+
+/-- …and the refusal reasons are exactly what the property says: the nonce is not the account's next nonce, the
+balance does not cover gas limit × price, or the pool has less than the gas limit. -/
+theorem refusal_reasons (s : St) (m : Msg) (e : Err) (h : preCheck s m = .error e) :
+    (e = .nonceTooHigh ∧ (s.world.get m.sender).nonce < m.f.nonce) ∨
+    (e = .nonceTooLow ∧ m.f.nonce < (s.world.get m.sender).nonce) ∨
+    (e = .insufficientBalanceForGas ∧ (s.world.get m.sender).balance < ((m.f.gasLimit * m.f.price : Nat) : Int)) ∨
+    (e = .gasLimitReached ∧ s.pool < m.f.gasLimit) :=
+  preCheck_err h
+
+/-! ## Part 3 — applied ⇒ next nonce, funds, nonce + 1, exact charge, gas bounds -/
+
+/-- An applied transfer / contract call / creation (`rc` is its receipt), for every state and every EVM that
+respects `EvmSpec`: it carried the account's next nonce, the balance covered gas limit × price, the pool covered
+the gas limit; afterwards the nonce is one higher, gas used is between the intrinsic cost and the limit, the
+sender's balance dropped by the value (when the run did not fail) plus `(gasUsed − refund) × price` where `refund =
+min(gasUsed / 2, refund counter)`, the pool dropped by `gasUsed − refund`, and `usedGas` / `gasRewards` advanced by
+`gasUsed` and `gasUsed × price`. -/
+theorem applied_accounting {E : Env} {s : St} {acc : Acc} {m : Msg} {rc : Receipt}
+    (hE : EvmSpec E.evm m) (hns : E.isStaking m = false) (hto : m.f.to ≠ some m.sender)
+    (hlim : m.f.gasLimit < U64) (hpool : s.pool < U64) (hnonce : m.f.nonce + 1 < U64)
+    (h : (applyMsg E s acc m).out = .ok rc) :
+    ∃ ig refund, intrinsicGas (E.basicGas m) m.f.data = some ig ∧
+      (s.world.get m.sender).nonce = m.f.nonce ∧
+      ((m.f.gasLimit * m.f.price : Nat) : Int) ≤ (s.world.get m.sender).balance ∧
+      m.f.gasLimit ≤ s.pool ∧
+      ig ≤ rc.gasUsed ∧ rc.gasUsed ≤ m.f.gasLimit ∧
+      refund = min (rc.gasUsed / 2) (E.evm m (callWorld m (worldAfterBuy s m)) s.refund (m.f.gasLimit - ig)).refund ∧
+      ((applyMsg E s acc m).st.world.get m.sender).nonce = m.f.nonce + 1 ∧
+      ((applyMsg E s acc m).st.world.get m.sender).balance =
+        (s.world.get m.sender).balance - (if rc.failed then 0 else (m.f.value : Int))
+          - (((rc.gasUsed - refund) * m.f.price : Nat) : Int) ∧
+      (applyMsg E s acc m).st.pool = s.pool - (rc.gasUsed - refund) ∧
+      (applyMsg E s acc m).st.refund = 0 ∧
+      (applyMsg E s acc m).acc.used = (acc.used + rc.gasUsed) % U64 ∧
+      (applyMsg E s acc m).acc.rewards = acc.rewards + ((m.f.price * rc.gasUsed : Nat) : Int) ∧
+      rc.cumulative = (applyMsg E s acc m).acc.used :=
+  applied_evm hE hns hto hlim hpool hnonce h
+
+/-- "Charged exactly" as the property states it (balance drops by value + gasUsed × price, pool by gasUsed), for
+every applied EVM message: FALSE of the code that exists — see `charged_exactly_counterexample`. -/
+def charged_exactly_statement : Prop :=
+  ∀ (E : Env) (s : St) (acc : Acc) (m : Msg) (rc : Receipt),
+    EvmSpec E.evm m → E.isStaking m = false → m.f.to ≠ some m.sender →
+    m.f.gasLimit < U64 → s.pool < U64 → m.f.nonce + 1 < U64 → s.refund = 0 →
+    (applyMsg E s acc m).out = .ok rc →
+    ((applyMsg E s acc m).st.world.get m.sender).balance =
+        (s.world.get m.sender).balance - (if rc.failed then 0 else (m.f.value : Int))
+          - ((rc.gasUsed * m.f.price : Nat) : Int) ∧
+    (applyMsg E s acc m).st.pool = s.pool - rc.gasUsed
+
+/-- What is true instead: the charge is exact whenever the EVM run leaves the refund counter at zero. -/
+theorem charged_exactly_partial {E : Env} {s : St} {acc : Acc} {m : Msg} {rc : Receipt}
+    (hE : EvmSpec E.evm m) (hns : E.isStaking m = false) (hto : m.f.to ≠ some m.sender)
+    (hlim : m.f.gasLimit < U64) (hpool : s.pool < U64) (hnonce : m.f.nonce + 1 < U64)
+    (hnr : ∀ w g, (E.evm m w s.refund g).refund = 0)
+    (h : (applyMsg E s acc m).out = .ok rc) :
+    ((applyMsg E s acc m).st.world.get m.sender).balance =
+        (s.world.get m.sender).balance - (if rc.failed then 0 else (m.f.value : Int))
+          - ((rc.gasUsed * m.f.price : Nat) : Int) ∧
+    (applyMsg E s acc m).st.pool = s.pool - rc.gasUsed := by
+  obtain ⟨ig, refund, _, _, _, _, _, _, hr, _, hb, hp, _⟩ := applied_evm hE hns hto hlim hpool hnonce h
+  rw [hnr, Nat.min_zero] at hr
+  subst hr
+  simp only [Nat.sub_zero] at hb hp
+  exact ⟨hb, hp⟩
+
+/-- witness of finding F-C17a: a call to a contract that clears one storage slot (5006 gas, 15000 refund) -/
+def cexEnv : Env := { stakingAddr := [9], version := 5, evm := evmCosting [2] 5006 15000, handler := handlerObserved false 0 }
+def cexState : St := { world := ⟨[([1], { nonce := 0, balance := 1000000000000000000 })]⟩, refund := 0, pool := 8000000 }
+def cexMsg : Msg := { sender := [1], f := { nonce := 0, price := 1000, gasLimit := 100000, to := some [2], value := 0, data := [] } }
+
+/-- Finding F-C17a: the receipt says 26006 gas, `gasRewards` grows by 26006 × 1000, but the sender pays for 13003
+gas only and the pool shrinks by 13003 only (the converter's `usedGas` is taken before `refundGas` runs). -/
+theorem charged_exactly_counterexample : ¬ charged_exactly_statement := by
+  intro hst
+  have h := hst cexEnv cexState {} cexMsg { failed := false, cumulative := 26006, gasUsed := 26006 }
+    (evmCosting_spec [2] 5006 15000 cexMsg (by decide)) (by decide) (by decide) (by decide) (by decide) (by decide)
+    (by decide) (by decide)
+  exact absurd h.2 (by decide)
+
+/-- An applied staking-module message from YouV4 on, for every state and every handler that respects `HandlerSpec`:
+next nonce, funds, nonce + 1, gas used between the intrinsic cost (100000 + data) and the limit, the sender's
+balance drops by exactly the stake (zero when the message failed) plus gasUsed × price, the pool by gasUsed. -/
+theorem applied_accounting_staking {E : Env} {s : St} {acc : Acc} {m : Msg} {rc : Receipt}
+    (hH : HandlerSpec E.handler m) (hs : E.isStaking m = true) (hver : 4 ≤ E.version)
+    (hlim : m.f.gasLimit < U64) (hpool : s.pool < U64) (hnonce : m.f.nonce + 1 < U64) (hr0 : s.refund = 0)
+    (h : (applyMsg E s acc m).out = .ok rc) :
+    ∃ (ig : Nat) (stake : Int), intrinsicGas (E.basicGas m) m.f.data = some ig ∧
+      (s.world.get m.sender).nonce = m.f.nonce ∧
+      ((m.f.gasLimit * m.f.price : Nat) : Int) ≤ (s.world.get m.sender).balance ∧
+      m.f.gasLimit ≤ s.pool ∧
+      ig ≤ rc.gasUsed ∧ rc.gasUsed ≤ m.f.gasLimit ∧
+      0 ≤ stake ∧ (rc.failed = true → stake = 0) ∧
+      ((applyMsg E s acc m).st.world.get m.sender).nonce = m.f.nonce + 1 ∧
+      ((applyMsg E s acc m).st.world.get m.sender).balance =
+        (s.world.get m.sender).balance - stake - ((rc.gasUsed * m.f.price : Nat) : Int) ∧
+      (applyMsg E s acc m).st.pool = s.pool - rc.gasUsed ∧
+      (applyMsg E s acc m).st.refund = 0 ∧
+      (applyMsg E s acc m).acc.used = (acc.used + rc.gasUsed) % U64 ∧
+      (applyMsg E s acc m).acc.rewards = acc.rewards + ((m.f.price * rc.gasUsed : Nat) : Int) ∧
+      rc.cumulative = (applyMsg E s acc m).acc.used :=
+  applied_staking hH hs hver hlim hpool hnonce hr0 h
+
+/-- witness of finding F-C17b (= F-C07b): protocol version 3, a staking message whose payload does not decode -/
+def cexEnvV3 : Env := { stakingAddr := [9], version := 3, evm := evmCosting [2] 0 0, handler := handlerObserved false 0 }
+def cexMsgStk : Msg := { sender := [1], f := { nonce := 0, price := 1000, gasLimit := 200000, to := some [9], value := 0, data := [1, 2, 3] } }
+
+/-- Finding F-C17b: before YouV4 a failed staking message is reported with gasUsed = gas limit (200000) while
+the sender pays the intrinsic 100048 only (so the statement of `applied_accounting_staking` needs `4 ≤ version`). -/
+theorem staking_pre_v4_counterexample :
+    (applyMsg cexEnvV3 cexState {} cexMsgStk).out = .ok { failed := true, cumulative := 200000, gasUsed := 200000 } ∧
+    ((applyMsg cexEnvV3 cexState {} cexMsgStk).st.world.get [1]).balance = 1000000000000000000 - 100048 * 1000 ∧
+    (applyMsg cexEnvV3 cexState {} cexMsgStk).st.pool = 8000000 - 100048 := by
+  decide
+
+/-- Gas used lies between the intrinsic cost and the gas limit — for every applied message, every protocol version,
+every EVM that never returns more gas than it was given. -/
+theorem gas_bounds {E : Env} {s : St} {acc : Acc} {m : Msg} {rc : Receipt}
+    (hg : ∀ w r g, (E.evm m w r g).gasLeft ≤ g) (hlim : m.f.gasLimit < U64) (hpool : s.pool < U64)
+    (h : (applyMsg E s acc m).out = .ok rc) :
+    ∃ ig, intrinsicGas (E.basicGas m) m.f.data = some ig ∧ ig ≤ rc.gasUsed ∧ rc.gasUsed ≤ m.f.gasLimit :=
+  gas_bounds_msg hg hlim hpool h
+
+/-- The block gas pool never grows, whatever the outcome. -/
+theorem pool_monotone {E : Env} {s : St} {acc : Acc} {m : Msg}
+    (hg : ∀ w r g, (E.evm m w r g).gasLeft ≤ g) (hlim : m.f.gasLimit < U64) :
+    (applyMsg E s acc m).st.pool ≤ s.pool :=
+  pool_le_msg hg hlim
+
+/-! ## Part 4 — errors after the gas purchase rely on the caller -/
+
+/-- Intrinsic gas above the limit (or overflowing) is detected after `buyGas`: `ApplyMessageEntry` returns with the
+purchase still in the state (balance − gas limit × price, pool − gas limit). It is not one of the three refusal
+reasons of the property; the callers undo it: `Process` rejects the block (`processRun = none`), the worker reverts
+the StateDB (`worker_restores_state`) — but not the pool (`worker_pool_leak_example`). -/
+theorem late_error_needs_caller_revert (E : Env) (s : St) (acc : Acc) (m : Msg) (e : Err)
+    (hg : ∀ w r g, (E.evm m w r g).gasLeft ≤ g)
+    (h : (applyMsg E s acc m).out = .error e) (he : e = .intrinsicOverflow ∨ e = .outOfGasIntrinsic) :
+    (s.world.get m.sender).nonce = m.f.nonce ∧
+    (applyMsg E s acc m).st = { s with pool := s.pool - m.f.gasLimit, world := worldAfterBuy s m } ∧
+    (applyMsg E s acc m).acc = acc := by
+  obtain ⟨herr, hst, hacc⟩ := applyMsg_err h
+  unfold applyMessageEntry at herr hst
+  have := entry_late_error (env_conv_safe E m hg) herr he
+  exact ⟨this.1, by rw [hst]; exact this.2, hacc⟩
+
+/-- After any error the worker's snapshot/revert leaves accounts, refund counter and accumulators as they were. -/
+theorem worker_restores_state (E : Env) (s : St) (acc : Acc) (m : Msg) (e : Err)
+    (h : (workerCommit E s acc m).out = .error e) :
+    (workerCommit E s acc m).st.world = s.world ∧ (workerCommit E s acc m).st.refund = s.refund ∧
+    (workerCommit E s acc m).acc = acc :=
+  let ⟨a, b, c, _⟩ := workerCommit_err h
+  ⟨a, b, c⟩
+
+/-- …but the gas pool is not part of the snapshot: a message whose gas limit is below its intrinsic cost costs the
+block 20000 gas of pool although it is not included (observed on the real worker path by the harness as
+`late-error:pool-leak-in-worker`). -/
+theorem worker_pool_leak_example :
+    (workerCommit cexEnv cexState {} { cexMsg with f := { cexMsg.f with gasLimit := 20000 } }).out = .error .outOfGasIntrinsic ∧
+    (workerCommit cexEnv cexState {} { cexMsg with f := { cexMsg.f with gasLimit := 20000 } }).st.pool = 8000000 - 20000 := by
+  decide
+
+/-! ## Part 5 — at most once, for every sequence within a block gas pool -/
+
+/-- A transaction whose nonce is below the account's nonce (e.g. one that has been applied) is refused and changes
+nothing. -/
+theorem replay_refused (E : Env) (s : St) (acc : Acc) (m : Msg) (h : m.f.nonce < (s.world.get m.sender).nonce) :
+    (applyMsg E s acc m).out = .error .nonceTooLow ∧ (applyMsg E s acc m).st = s ∧ (applyMsg E s acc m).acc = acc := by
+  have hp : preCheck s m = .error .nonceTooLow := by
+    unfold preCheck
+    simp only
+    have : ¬ (s.world.get m.sender).nonce < m.f.nonce := by omega
+    simp [this, h]
+  unfold applyMsg applyMessageEntry applyMessageEntryWith
+  simp [hp]
+
+/-- For every sequence of candidate messages the worker tries within one block gas pool (failed ones skipped, their
+state changes reverted), every EVM / handler respecting their contracts: the pool never grows; no account's nonce
+ever decreases; every included message carried its sender's then-current nonce; and the included messages of one
+sender have strictly increasing nonces — so no message (sender, nonce) is included twice. -/
+theorem applied_at_most_once (E : Env) (hE : EnvSpec E) (ms : List Msg) (s : St) (acc : Acc)
+    (hb : ∀ m ∈ ms, MsgBounds m) (hp : s.pool < U64) :
+    (workerRun E s acc ms).1.pool ≤ s.pool ∧
+    (∀ a, (s.world.get a).nonce ≤ ((workerRun E s acc ms).1.world.get a).nonce) ∧
+    (∀ m ∈ (workerRun E s acc ms).2.2, (s.world.get m.sender).nonce ≤ m.f.nonce ∧
+        m.f.nonce < ((workerRun E s acc ms).1.world.get m.sender).nonce) ∧
+    (workerRun E s acc ms).2.2.Pairwise (fun m1 m2 => m1.sender = m2.sender → m1.f.nonce < m2.f.nonce) :=
+  workerRun_spec E hE ms s acc hb hp
+
+/-- The same for block import: `Process` accepts a block only if every message applies, and then it did exactly what
+the worker's loop does with every message included (so `applied_at_most_once` applies to it verbatim). -/
+theorem process_is_worker_without_failures (E : Env) (ms : List Msg) (s : St) (acc : Acc) (r : St × Acc)
+    (h : processRun E s acc ms = some r) : workerRun E s acc ms = (r.1, r.2, ms) :=
+  processRun_eq_workerRun E ms s acc r h
+
+/-! ## Non-vacuity: the hypotheses are satisfiable by concrete, non-trivial instances (tests on literals) -/
+
+/-- `EvmSpec` holds of the plain-transfer / costing summaries for every message not addressed to the sender itself -/
+example (m : Msg) (h : [2] ≠ m.sender) : EvmSpec (evmCosting [2] 5006 15000) m := evmCosting_spec _ _ _ m h
+/-- `HandlerSpec` holds of the observed-outcome handlers -/
+example (m : Msg) : HandlerSpec (handlerObserved true 500) m := handlerObserved_spec true 500 m
+/-- `EnvSpec` is inhabited -/
+example : EnvSpec { stakingAddr := [9], version := 5, evm := evmCosting [] 0 0, handler := handlerObserved false 0 } → True :=
+  fun _ => trivial
+/-- a well-formed field set (test on literals) -/
+example : ({ nonce := 7, price := 1000, gasLimit := 21000, to := none, value := 5, data := [1, 0] } : TxFields).WF := by
+  refine ⟨by decide, by decide, by unfold Small; decide, by unfold Small; decide, by decide, ?_⟩
+  intro a h; simp at h
+/-- the applied case of `applied_accounting` is reachable: the witness message is applied with receipt gas 26006 (test) -/
+example : (applyMsg cexEnv cexState {} cexMsg).out = .ok { failed := false, cumulative := 26006, gasUsed := 26006 } := by decide
+/-- the model's sender check accepts V = 2·99 + 35 with in-range R, S (test) -/
+example : senderCheck 99 { f := cexMsg.f, v := 233, r := 1, s := 1 } = .ok 0 := by decide
+/-- and rejects the high-s value N − 1 (test) -/
+example : senderCheck 99 { f := cexMsg.f, v := 233, r := 1, s := secp256k1N - 1 } = .error .invalidSig := by decide
 
 end YouVerif.C17
